@@ -74,6 +74,29 @@ def run_variant(pid, patch):
         shutil.rmtree(ov, ignore_errors=True)
 
 
+def run_renamed_tree(pid):
+    """The check on a whole-tree variant with every local and parameter renamed: it must stay silent."""
+    from .ctx import Check
+    from . import benign
+    try:
+        ov, n = benign.renamed_tree()
+    except Exception as e:       # noqa
+        return {'patch': 'benign-renamed-tree (generated)', 'status': 'inconclusive (renamed variant could not be built: %r)' % e, 'reported': []}
+    mod = importlib.import_module('props.' + pid)
+    ck = Check(pid, tier='quick', level=getattr(mod, 'LEVEL', 'other'), repo=ov, quiet=True)
+    try:
+        mod.run(ck)
+        ck.finish()
+        new = [o.key for o in ck.result['new']]
+    except AnalysisBroken as e:
+        # the textual renamer can produce a tree that does not parse (name clash) or loses an anchor: inconclusive, not an alarm
+        return {'patch': 'benign-renamed-tree (generated)', 'status': 'inconclusive (renamed variant could not be analysed: %s)' % str(e)[:160], 'reported': []}
+    except Exception as e:       # noqa
+        return {'patch': 'benign-renamed-tree (generated)', 'status': 'inconclusive (renamed variant could not be analysed: %r)' % e, 'reported': []}
+    status = ('silent (as required) on the tree with %d locals/parameters renamed' % n) if not new else 'FALSE-ALARM on a behaviour-preserving edit'
+    return {'patch': 'benign-renamed-tree (generated)', 'status': status, 'reported': new[:6]}
+
+
 def run(ck, pid):
     patches = sorted(glob.glob(os.path.join(VERIF, 'selftest', pid, '*.patch')))
     if len(patches) > 1:
@@ -82,6 +105,7 @@ def run(ck, pid):
             results = list(ex.map(run_variant, [pid] * len(patches), patches))
     else:
         results = [run_variant(pid, p) for p in patches]
+    results.append(run_renamed_tree(pid))
     ck.extra['seeded_variants'] = results
     noisy = [r for r in results if r['status'].startswith('FALSE-ALARM')]
     if noisy:
